@@ -400,7 +400,7 @@ H_CRASH_AE = {"fn": "vh_crash_ae", "what": "appendEntries (same/newer term, trun
 H_CRASH_AE_THOROUGH = dict(H_CRASH_AE, quick={"skip": True})
 H_CRASH_VOTE = {"fn": "vh_crash_vote", "what": "requestVote x crash before any stable-store write or after the reply x real NewRaft x a second requestVote (same term or the old term, any candidate) on the recovered server: "
                 "a vote granted (or on record) before the crash binds the server afterwards; the replied term is durable; durable vote term never ahead of the durable term",
-                "bounds_quick": "N=1 server in the configuration, one log shape, <=4 crash points (checked)", "bounds_thorough": "N<=2, both absent-key conventions, all W=1 log shapes",
+                "bounds_quick": "N=1 server in the configuration, one log shape, <=4 crash points (checked)", "bounds_thorough": "N<=2, both absent-key conventions, one log shape",
                 "covers": ["crash.vote.crashed", "crash.vote.granted-twice-same-term", "crash.vote.earlier-record-same-term", "crash.vote.end"], "opts": {"max_paths": 200000}, "thorough": {"max_paths": 2000000, "max_seconds": 7000}}
 H_CRASH_INSTALL = {"fn": "vh_crash_install", "what": "installSnapshot (real FSM goroutine) x crash point x real NewRaft: restart restores the old snapshot or the complete new one, an acknowledged snapshot is durable, nothing above the recovered snapshot is lost, "
                    "nothing is compacted before the new snapshot is durable, recovered server satisfies the invariant (known finding D3 excepted)",
